@@ -1,6 +1,7 @@
 package sim
 
 import (
+	"strings"
 	"fmt"
 
 	"google.golang.org/grpc/status"
@@ -33,6 +34,7 @@ type wireStream struct {
 	cliWindow  uint32 // window the tunnel client advertised for response data
 	newEmit    int64
 	newDeliver int64
+	method     string
 
 	c2sAsm             asmState
 	c2sData            int64
@@ -237,7 +239,7 @@ func wireC2S(w *World, c *wireConn, seq int64, emit bool, f *FrameInfo, viol vio
 			}
 			c.haveNew = true
 			if st == nil {
-				st = &wireStream{id: f.StreamID, rpc: f.RPC, revision: f.Revision, cliWindow: f.Window, newEmit: seq}
+				st = &wireStream{id: f.StreamID, rpc: f.RPC, revision: f.Revision, cliWindow: f.Window, newEmit: seq, method: f.Method}
 				c.streams[f.StreamID] = st
 				c.order = append(c.order, f.StreamID)
 			}
@@ -288,7 +290,10 @@ func wireC2S(w *World, c *wireConn, seq int64, emit bool, f *FrameInfo, viol vio
 		// forbids and no property covers) are exempt from the rules that
 		// presuppose a well-behaved application.
 		app := st.rpc >= 0
-		if st.halfClose > 0 && app {
+		// (the carrier stream of a nested reverse tunnel is the exception to
+		// the exception: its driver, ReverseTunnelServer, does stop sending
+		// once it has half-closed - Stop relies on that)
+		if st.halfClose > 0 && (app || strings.HasSuffix(st.method, "/OpenReverseTunnel")) {
 			viol("C13", "data-after-half-close", seq, f, "request data after half_close")
 		}
 		if f.DataLen > chunkLimit {
